@@ -226,6 +226,17 @@ func checkLaws(c *sut.Client, cs *Case, e *Expr, o *pt.Obs) error {
 	// by (all labels) is the identity
 	sel := e.Arg
 	all := allKeysOf(cs, sel.Metric)
+	if pt.KnownFindingOpen("C09-label-absent-from-series") {
+		// the derived queries below name every label of the metric: when some series of the metric does
+		// not carry one of them, they fall into the class of that open finding (the group of the series
+		// without the label is lost) although the generated query itself did not
+		for _, k := range all {
+			if metricLacksLabel(cs, sel.Metric, k) {
+				o.Known("C09-label-absent-from-series")
+				return nil
+			}
+		}
+	}
 	if len(all) > 0 {
 		ident, err := runQuery(c, cs, sel.String(), cs.Step)
 		if err != nil {
